@@ -154,7 +154,7 @@ type spec struct {
 	Case    []bool // letter case pattern of the keywords in the fresh file's DDL and in parse-fresh statements
 }
 
-var kinds = []string{"parse-fresh", "select-probed", "select", "select-wr", "indexed", "indexed-nocase", "indexed-eq", "indexed-wr", "pk", "rowid", "columns", "low-scan", "parse", "compare", "driver", "driver-early-close", "open-close", "schema"}
+var kinds = []string{"parse-fresh", "select-probed", "select", "select-wr", "indexed", "indexed-nocase", "indexed-eq", "indexed-wr", "pk", "rowid", "columns", "low-scan", "parse", "compare", "driver", "driver-early-close", "driver-connect", "open-close", "schema"}
 
 var statements = []string{
 	"CREATE TABLE t (a INTEGER PRIMARY KEY, b, c TEXT COLLATE NOCASE)",
@@ -187,10 +187,10 @@ func TestC20Concurrent(t *testing.T) {
 }
 
 type handles struct {
-	hi   map[int]*sqlittle.DB
-	lo   map[int]*sdb.Database
-	pool map[int]*sql.DB // shared between goroutines (database/sql is made for that)
-	linked bool          // open the fixed files through their hard links
+	hi     map[int]*sqlittle.DB
+	lo     map[int]*sdb.Database
+	pool   map[int]*sql.DB // shared between goroutines (database/sql is made for that)
+	linked bool            // open the fixed files through their hard links
 	// keys shared by all goroutines of a plan (made anew for every plan)
 	sharedKeys map[int]sqlittle.Key
 }
@@ -255,10 +255,11 @@ func runOp(h *handles, o opSpec, yield bool, pattern []bool) string {
 		case "select-probed":
 			// inside the first row callback another process is asked whether
 			// this process holds the SHARED lock on the file
-			first := true
+			nrow := 0
 			err = d.Select("t", func(row sqlittle.Row) {
-				if first {
-					first = false
+				nrow++
+				if nrow%16 == 1 {
+					// (the first row and every sixteenth after it)
 					st, perr := probe.Probe(files[o.File])
 					switch {
 					case perr != nil:
@@ -377,6 +378,26 @@ func runOp(h *handles, o opSpec, yield bool, pattern []bool) string {
 			return fail(err)
 		}
 		rows.Close()
+	case "driver-connect":
+		// a new database/sql connection to the file that is used for things
+		// which need no read: a ping, an empty transaction, a statement
+		// refused for its syntax, a prepared statement that is never run
+		p, err := sql.Open("sqlittle", h.name(o.File))
+		if err != nil {
+			return fail(err)
+		}
+		fmt.Fprint(&b, p.Ping() == nil, ";")
+		if tx, err := p.Begin(); err == nil {
+			fmt.Fprint(&b, tx.Rollback() == nil, ";")
+		}
+		if rows, err := p.Query("SELECT FROM t"); err == nil {
+			rows.Close()
+			fmt.Fprint(&b, "a syntax error is accepted;")
+		}
+		if st, err := p.Prepare("SELECT a FROM t"); err == nil {
+			st.Close()
+		}
+		p.Close()
 	case "driver-early-close":
 		// a result set of slow rows is closed after one or two of them; the
 		// connection goes back to the pool and the next query is likely to
